@@ -324,6 +324,8 @@ def base_docs(spec, case, tier):
         for path, node in docs.positions(t):
             if below_any(spec, t, path) is True and node[0] == 's' and not docs.is_key_path(path):
                 out.append(docs.replace(t, path, deep))
+                # empty collections: nothing below them, so the tag on the collection itself is all there is
+                out.append(docs.replace(t, path, M([(S('str', 'e'), M([])), (S('str', 'f'), Q([])), (S('str', 'g'), Q([M([]), Q([])]))])))
                 break
     # every key with an underscore also written with dashes (one key per document)
     for t in trees[:lim]:
@@ -345,7 +347,7 @@ def base_docs(spec, case, tier):
 
 def units(tier):
     ms = model_list()
-    return [(i, j) for i in range(len(ms)) for j in range(28 if tier == 'quick' else 44)]
+    return [(i, j) for i in range(len(ms)) for j in range(32 if tier == 'quick' else 48)]
 
 
 _CACHE = {}
